@@ -165,18 +165,18 @@ Definition hdr_of_word (n : netlist) (w : Z) : hdr :=
   HRoute (match n_route_bits n with Some b => trunc b w | None => w end).
 
 (* ---------------------------------------------------------------- source-route tables *)
-(* RoutingTables[v][d]: a '{...} literal lists index N-1 first *)
+(* RoutingTables[v][d]: both dimensions are declared [NumEndpoints-1:0] and a '{...} literal fills them left to
+   right, index NumEndpoints-1 first -- whatever the number of elements the literal has (a literal that is too short
+   leaves the low indices without an entry) *)
 Definition table_word (n : netlist) (row col : Z) : option word :=
   match n_tables n with
   | None => None
   | Some rows =>
-      let nr := Z.of_nat (length rows) in
-      if (row <? 0) || (nr <=? row) then None else
-      match nth_error rows (Z.to_nat (nr - 1 - row)) with
+      let N := Z.of_nat (length (n_nis n)) in
+      if (row <? 0) || (N <=? row) then None else
+      match nth_error rows (Z.to_nat (N - 1 - row)) with
       | None => None
-      | Some ws =>
-          let nc := Z.of_nat (length ws) in
-          if (col <? 0) || (nc <=? col) then None else nth_error ws (Z.to_nat (nc - 1 - col))
+      | Some ws => if (col <? 0) || (N <=? col) then None else nth_error ws (Z.to_nat (N - 1 - col))
       end
   end.
 Definition enum_value (e : Z * list (string * Z)) (name : string) : option Z :=
